@@ -1,0 +1,121 @@
+//go:build verif
+
+// Contracts for the deductive checks under /verif (comment-only; no code).
+
+package unixfs
+
+// stored representation of the optional fields of the UnixFS Data message
+//@ macro storedMode(n) = ite(n.format.Mode != nil, deref(n.format.Mode), 0)
+//@ macro storedType(n) = ite(n.format.Type != nil, deref(n.format.Type), pb.Data_Raw)
+//@ macro isDirType(n) = storedType(n) == pb.Data_Directory || storedType(n) == pb.Data_HAMTShard
+
+//@ func ext google.golang.org/protobuf/proto.Uint32
+//@   ensures result != nil && deref(result) == v
+//@ func ext google.golang.org/protobuf/proto.Uint64
+//@   ensures result != nil && deref(result) == v
+//@ func ext google.golang.org/protobuf/proto.Int64
+//@   ensures result != nil && deref(result) == v
+
+// ---- mode -------------------------------------------------------------------
+//@ func (*FSNode).SetModeFromUnixPermissions
+//@   prop C18
+//@   arith bv
+//@   requires n != nil
+//@   modifies n.format
+//@   ensures[perm_bits] storedMode(n) & 0xFFF == unixPerms & 0xFFF
+//@   ensures[extended_kept] storedMode(n) & 0xFFFFF000 == old(storedMode(n)) & 0xFFFFF000
+//@   ensures[cleared_iff_zero] (n.format.Mode == nil) ==> (unixPerms == 0 && old(storedMode(n)) & 0xFFFFF000 == 0)
+//@   ensures[rest_kept] n.format.Type == old(n.format.Type) && n.format.Mtime == old(n.format.Mtime) && n.format.Filesize == old(n.format.Filesize) && n.format.Data == old(n.format.Data) && n.format.Blocksizes == old(n.format.Blocksizes)
+
+//@ func (*FSNode).SetMode
+//@   prop C18
+//@   arith bv
+//@   requires n != nil
+//@   modifies n.format
+//@   ensures[perm_bits] storedMode(n) & 0xFFF == unixPermsOf(m)
+//@   ensures[extended_kept] storedMode(n) & 0xFFFFF000 == old(storedMode(n)) & 0xFFFFF000
+//@   ensures[rest_kept] n.format.Type == old(n.format.Type) && n.format.Mtime == old(n.format.Mtime) && n.format.Filesize == old(n.format.Filesize)
+
+//@ func (*FSNode).Type
+//@   inline
+
+//@ func (*FSNode).Mode
+//@   prop C18
+//@   arith bv
+//@   requires n != nil
+//@   ensures[unset] storedMode(n) & 0xFFF == 0 ==> m == 0
+//@   ensures[perms] storedMode(n) & 0xFFF != 0 ==> m & (0x1FF | os.ModeSetuid | os.ModeSetgid | os.ModeSticky) == modePermsOf(storedMode(n) & 0xFFF)
+//@   ensures[type_dir] storedMode(n) & 0xFFF != 0 ==> ((m & os.ModeDir != 0) <==> isDirType(n))
+//@   ensures[type_symlink] storedMode(n) & 0xFFF != 0 ==> ((m & os.ModeSymlink != 0) <==> storedType(n) == pb.Data_Symlink)
+//@   ensures[no_other_bits] m & ^(0x1FF | os.ModeSetuid | os.ModeSetgid | os.ModeSticky | os.ModeDir | os.ModeSymlink) == 0
+
+//@ func (*FSNode).ExtendedMode
+//@   prop C18
+//@   arith bv
+//@   requires n != nil
+//@   ensures[ext] result == storedMode(n) >> 12
+
+//@ func (*FSNode).SetExtendedMode
+//@   prop C18
+//@   arith bv
+//@   requires n != nil
+//@   modifies n.format
+//@   ensures[ext_bits] storedMode(n) >> 12 == mode & 0xFFFFF
+//@   ensures[perm_kept] storedMode(n) & 0xFFF == old(storedMode(n)) & 0xFFF
+//@   ensures[rest_kept] n.format.Type == old(n.format.Type) && n.format.Mtime == old(n.format.Mtime) && n.format.Filesize == old(n.format.Filesize)
+
+// round trip "what SetMode stored is what Mode reports" over the two contracts
+//@ lemma[C18] mode_roundtrip (m os.FileMode, stored uint32): stored & 0xFFF == unixPermsOf(m) && unixPermsOf(m) != 0 ==> modePermsOf(stored & 0xFFF) == m & (0x1FF | os.ModeSetuid | os.ModeSetgid | os.ModeSticky)
+
+// ---- modification time ------------------------------------------------------
+//@ spec timeIsZero(t time.Time) bool
+//@ spec timeUnix(t time.Time) int64
+//@ spec timeNanos(t time.Time) int
+//@ spec unixTime(sec int64, nsec int64) time.Time
+//@ func ext (time.Time).IsZero
+//@   ensures result == timeIsZero(t)
+//@ func ext (time.Time).Unix
+//@   ensures result == timeUnix(t)
+//@ func ext (time.Time).Nanosecond
+//@   ensures result == timeNanos(t) && 0 <= result && result < 1000000000
+//@ func ext time.Unix
+//@   ensures result == unixTime(sec, nsec)
+
+//@ macro hasMtime(n) = n.format.Mtime != nil && n.format.Mtime.Seconds != nil
+//@ macro mtSec(n) = deref(n.format.Mtime.Seconds)
+//@ macro hasNanos(n) = n.format.Mtime.Nanos != nil
+//@ macro mtNanos(n) = deref(n.format.Mtime.Nanos)
+
+//@ func (*FSNode).ModTime
+//@   prop C18
+//@   arith bv
+//@   requires n != nil
+//@   ensures[unset] !hasMtime(n) ==> result == zero(time.Time)
+//@   ensures[secs_only] hasMtime(n) && !hasNanos(n) ==> result == unixTime(mtSec(n), 0)
+//@   ensures[bad_nanos] hasMtime(n) && hasNanos(n) && (mtNanos(n) < 1 || mtNanos(n) > 999999999) ==> result == zero(time.Time)
+//@   ensures[full] hasMtime(n) && hasNanos(n) && 1 <= mtNanos(n) && mtNanos(n) <= 999999999 ==> result == unixTime(mtSec(n), int64(mtNanos(n)))
+
+//@ func (*FSNode).SetModTime
+//@   prop C18
+//@   arith bv
+//@   requires n != nil
+//@   modifies n.format, fields(n.format.Mtime)
+//@   ensures[zero] timeIsZero(ts) ==> n.format.Mtime == nil
+//@   ensures[secs] !timeIsZero(ts) ==> hasMtime(n) && mtSec(n) == timeUnix(ts)
+//@   ensures[nanos] !timeIsZero(ts) && timeNanos(ts) > 0 ==> hasNanos(n) && mtNanos(n) == uint32(timeNanos(ts))
+//@   ensures[no_nanos] !timeIsZero(ts) && timeNanos(ts) <= 0 ==> !hasNanos(n)
+//@   ensures[rest_kept] n.format.Type == old(n.format.Type) && n.format.Mode == old(n.format.Mode) && n.format.Filesize == old(n.format.Filesize) && n.format.Data == old(n.format.Data)
+
+// what SetModTime stores is read back by ModTime as the same instant (nanoseconds in 1..999999999)
+//@ lemma[C18] mtime_roundtrip (ns int): 0 < ns && ns < 1000000000 ==> 1 <= uint32(ns) && uint32(ns) <= 999999999 && int64(uint32(ns)) == int64(ns)
+
+// ---- size ---------------------------------------------------------------------
+//@ macro storedFilesize(p) = ite(p.Filesize != nil, deref(p.Filesize), 0)
+//@ macro storedTypeOf(p) = ite(p.Type != nil, deref(p.Type), pb.Data_Raw)
+//@ func size
+//@   prop C18 C07
+//@   arith bv
+//@   requires pbdata != nil
+//@   ensures[file] (storedTypeOf(pbdata) == pb.Data_File || storedTypeOf(pbdata) == pb.Data_Raw) ==> err == nil && result0 == storedFilesize(pbdata)
+//@   ensures[symlink] storedTypeOf(pbdata) == pb.Data_Symlink ==> err == nil && result0 == uint64(len(pbdata.Data))
+//@   ensures[dir] (storedTypeOf(pbdata) == pb.Data_Directory || storedTypeOf(pbdata) == pb.Data_HAMTShard) ==> err != nil
